@@ -154,6 +154,37 @@ Example C02_former_witness_proposal_withdraw_rejected :
   effect_proposal_withdraw true 0 1 2 7 5 = Some [Burn (mk 1 B_PROPFUND 0 7) 5; Mint (bal 2 0) 5].
 Proof. vm_compute. auto. Qed.
 
+(* ---------------- bid app (external_apps/bid): the locked amount of a bid is a ledger record of the bidder ----------------
+   BID_CREATE (guard: OLT, Amount.IsValid - f99f70a), unlocking (counter offer, cancel, reject, the PUBLIC unguarded BID_EXPIRE),
+   owner accept (escrow -> owner) and bidder accept of a counter offer (bidder -> owner) create nothing, add only amounts >= 0
+   and take only from the bidder (his balance or his escrow record) and the fee payer *)
+Theorem C02_no_creation_bid_create : forall known cur bidder conv v hc c payer fp fee ops, 0 <= fee ->
+  effect_bid_create known cur bidder conv v hc c = Some ops ->
+  no_creation (ops ++ fee_ops payer fp fee) /\ credits_ok (ops ++ fee_ops payer fp fee) /\ takes_only_from (ops ++ fee_ops payer fp fee) [bidder; payer].
+Proof. exact bid_create_stmt. Qed.
+Print Assumptions C02_no_creation_bid_create.
+Theorem C02_no_creation_bid_unlock : forall (l : gmap key Z) (bidder conv payer fp : N) (fee : Z), 0 <= fee -> nonneg l ->
+  no_creation (unlock_ops l bidder conv ++ fee_ops payer fp fee) /\ credits_ok (unlock_ops l bidder conv ++ fee_ops payer fp fee) /\
+  takes_only_from (unlock_ops l bidder conv ++ fee_ops payer fp fee) [bidder; payer] /\
+  forall a c, a <> payer -> holdings a c (run_tx l (unlock_ops l bidder conv)) = holdings a c l.
+Proof. exact bid_unlock_stmt. Qed.
+Print Assumptions C02_no_creation_bid_unlock.
+Theorem C02_no_creation_bid_owner_accept : forall (l : gmap key Z) (bidder owner conv payer fp : N) (fee : Z) ops, 0 <= fee -> nonneg l ->
+  effect_bid_owner_accept l bidder owner conv = Some ops ->
+  no_creation (ops ++ fee_ops payer fp fee) /\ credits_ok (ops ++ fee_ops payer fp fee) /\ takes_only_from (ops ++ fee_ops payer fp fee) [bidder; payer].
+Proof. exact bid_owner_accept_stmt. Qed.
+Print Assumptions C02_no_creation_bid_owner_accept.
+Theorem C02_no_creation_bid_bidder_accept : forall bidder owner c payer fp fee ops, 0 <= fee -> effect_bid_bidder_accept bidder owner c = Some ops ->
+  no_creation (ops ++ fee_ops payer fp fee) /\ credits_ok (ops ++ fee_ops payer fp fee) /\ takes_only_from (ops ++ fee_ops payer fp fee) [bidder; payer].
+Proof. exact bid_bidder_accept_stmt. Qed.
+Print Assumptions C02_no_creation_bid_bidder_accept.
+(* the former witness of finding C02.bid_negative_amount (fixed by f99f70a) is rejected; an ordinary bid locks, a counter offer unlocks *)
+Example C02_former_witness_bid_negative_rejected :
+  effect_bid_create true 0 1 7 (-5) false 0 = None /\ effect_bid_create true 0 1 7 5 false 0 = Some [Move (bal 1 0) (esc 1 7) 5] /\
+  (let l := ladd (ladd ∅ (bal 1 0) 95) (esc 1 7) 5 in effect_bid_counter l true 0 1 7 9 = Some [Move (esc 1 7) (bal 1 0) 5] /\
+   effect_bid_counter l true 0 1 7 5 = None /\ total 0 (run_tx l (unlock_ops l 1 7)) = 100 /\ holdings 1 0 (run_tx l (unlock_ops l 1 7)) = 100).
+Proof. vm_compute. repeat split; reflexivity. Qed.
+
 (* a transaction that creates nothing does not raise the total; lifted to blocks / histories by C02_block_total_bound *)
 Theorem C02_no_creation_total : forall c l ops, no_creation ops -> total c (run_tx l ops) <= total c l.
 Proof. exact no_creation_total. Qed.
